@@ -46,6 +46,13 @@ var originAtoms = func() []originAtom {
 	for _, s := range []string{"http://*.com", "http://*.co.uk:8080", "http://*.com.:*", "ws://*.github.io"} {
 		as = append(as, originAtom{S: s, Insecure: true, PSL: true})
 	}
+	// public suffixes of less common shapes (publicsuffix.org: wildcard rule *.kobe.jp with exception !city.kobe.jp, private-section entries)
+	for _, s := range []string{"https://*.foo.kobe.jp", "https://*.s3.amazonaws.com", "https://*.blogspot.com:8443", "https://*.co.jp.", "https://*.uk"} {
+		as = append(as, originAtom{S: s, PSL: true})
+	}
+	for _, s := range []string{"https://*.city.kobe.jp", "https://*.example.co.uk", "https://*.foo.github.io", "https://*.amazonaws.com"} {
+		as = append(as, originAtom{S: s})
+	}
 	inv := func(reason string, ss ...string) {
 		for _, s := range ss {
 			as = append(as, originAtom{S: s, Invalid: true, Reason: reason})
